@@ -36,7 +36,7 @@ def body(ck):
         return [lo - 50 * w - 1, lo - 0.125, lo, hi, hi + 0.125, lo + w * float(rng.integers(0, 65)) / 64][c] if np.isfinite(w) else float(rng.integers(-64, 65)) / 4
 
     envs_mc = [("MountainCar", MountainCar(), True), ("MountainCar(alt)", MountainCar(min_position=-2.0, max_position=1.0, max_speed=0.125), True),
-               ("ContinuousMountainCar", ContinuousMountainCar(), False)]
+               ("ContinuousMountainCar", ContinuousMountainCar(), True)]  # since the C17 fix it has the inelastic left wall too
     for i in range(n):
         name, env, wall = envs_mc[i % len(envs_mc)]
         lo, hi, ms = float(env.min_position), float(env.max_position), float(env.max_speed)
